@@ -50,6 +50,8 @@ type Config struct {
 	Validate   int               `json:"validate_vectors"`
 	Opaque     []string          `json:"opaque"` // callees replaced by "returns the zero value"
 	opaque     map[string]bool
+	OpaquePkgs []string `json:"opaque_pkgs"` // every function of these packages returns the zero value
+	opaquePkg  map[string]bool
 
 	prog   *ssa.Program
 	pkgs   map[string]*ssa.Package
@@ -177,6 +179,10 @@ func main() {
 	cfg.opaque = map[string]bool{}
 	for _, o := range cfg.Opaque {
 		cfg.opaque[o] = true
+	}
+	cfg.opaquePkg = map[string]bool{}
+	for _, o := range cfg.OpaquePkgs {
+		cfg.opaquePkg[o] = true
 	}
 	debug.SetGCPercent(800)
 	start := time.Now()
